@@ -63,8 +63,18 @@ fn hook_new_v4() -> Uuid {
     make_id(ID_SEED.load(Ordering::SeqCst), n)
 }
 
+thread_local! {
+    static BACKOFF_US: Cell<i64> = const { Cell::new(1000) };
+}
+
 fn hook_contended() {
-    sched::sleep_us(1000, Site::Contended);
+    // exponential back-off in simulated time, so a long stall of the lock holder costs few steps
+    let d = BACKOFF_US.with(|b| {
+        let d = b.get();
+        b.set((d * 2).min(1_000_000));
+        d
+    });
+    sched::sleep_us(d, Site::Contended);
 }
 
 /// Install the hooks and reset clock and id source for a run.
@@ -78,6 +88,7 @@ pub fn begin_run(seed: u64, start_us: i64) {
     ID_CTR.store(0, Ordering::SeqCst);
     sched::set_now_us(start_us);
     SKEW_US.with(|s| s.set(0));
+    crate::vfs::begin_run(seed, None);
 }
 
 pub fn ids_issued() -> u64 {
@@ -188,6 +199,7 @@ impl Storage for SimStorage {
         let r = self.inner.txn(client_id);
         match r {
             Ok(t) => {
+                BACKOFF_US.with(|b| b.set(1000));
                 if fault == Some(true) {
                     // the transaction began, but the caller is told it failed
                     drop(t);
